@@ -14,12 +14,17 @@ import ast
 import copy
 import itertools
 
-from harness import common, fnlib, modelgen
+from harness import c03_facts, common, fnlib, modelgen
 from harness.common import Run, clist, cn, copt, cz
 from harness.modelgen import nm, un
 
 AREA = "edit"
 PROPS = "PropsC03.v"
+BATCH = c03_facts.BATCH
+FINDING_BATCH = "C03-batch-partial-application"
+SINGLE_OF = {"add_parameters": "add_parameter", "remove_parameters": "remove_parameter", "update_parameters": "update_parameter",
+             "scale_parameters": "scale_parameter", "add_variables": "add_variable", "remove_variables": "remove_variable",
+             "update_variables": "update_variable"}
 
 METHODS = [
     "add_parameter", "remove_parameter", "update_parameter", "scale_parameter", "make_parameter_dynamic",
@@ -85,7 +90,7 @@ def extract_facts() -> dict:
             body = [ast.unparse(s) for s in w.body]
             deco_ok = body == ["self = cast(Model, args[0])", "self._cache = None", "return method(*args, **kwargs)"]
     return {"invalidates": inval, "unknown_mutators": unknown, "decorator_clears_first": deco_ok,
-            "missing_methods": [m for m in METHODS if m not in inval]}
+            "missing_methods": [m for m in METHODS if m not in inval]} | c03_facts.extract(tree)
 
 
 def gen() -> dict:
@@ -104,6 +109,7 @@ def gen() -> dict:
         "Definition unknown_mutators : list string := "
         + clist('"' + u + '"%string' for u in f["unknown_mutators"])
         + ".\n"
+        + c03_facts.coq(f)
     )
     common.write_if_changed(common.area_dir(AREA) / "GenEditFacts.v", text)
     return f
@@ -114,8 +120,9 @@ def gen() -> dict:
 # ---------------------------------------------------------------------------------------
 
 KINDCODE = {"parameter": 0, "variable": 1, "derived": 2, "reaction": 3, "readout": 4, "surrogate": 5, "data": 6}
+# ArityMismatchError shares the class of TypeError ("called with the wrong number of arguments", coq/edit/ModelSM.v build_cache)
 ERRCODE = {"MissingDependenciesError": 0, "CircularDependencyError": 1, "KeyError": 2, "TypeError": 3, "ValueError": 4,
-           "NameError": 6}
+           "NameError": 6, "ArityMismatchError": 3}
 
 
 class Discard(Exception):
@@ -188,8 +195,29 @@ def apply_mutator(m, op: tuple) -> None:
         m.update_data(nm(op[1]), op[2])
     elif k == "remove_data":
         m.remove_data(nm(op[1]))
+    elif k in ("add_parameters", "update_parameters", "add_variables", "update_variables"):
+        getattr(m, k)({nm(n): modelgen.py_valia(v) for n, v in op[1]})
+    elif k == "scale_parameters":
+        m.scale_parameters({nm(n): q for n, q in op[1]})
+    elif k == "remove_parameters":
+        m.remove_parameters([nm(n) for n in op[1]])
+    elif k == "remove_variables":
+        m.remove_variables(iter([nm(n) for n in op[1]]), remove_stoichiometries=op[2])
     else:
         raise AssertionError(k)
+
+
+def batch_items(op: tuple) -> list[tuple]:
+    """the single-item calls a batch form stands for (dict semantics for the mapping arguments)"""
+    k = op[0]
+    if k in ("remove_parameters",):
+        return [("remove_parameter", n) for n in op[1]]
+    if k == "remove_variables":
+        return [("remove_variable", n, op[2]) for n in op[1]]
+    d: dict = {}
+    for n, v in op[1]:
+        d[n] = v
+    return [(SINGLE_OF[k], n, v) for n, v in d.items()]
 
 
 def _sur_kwargs(args, outs, sto) -> dict:
@@ -210,6 +238,16 @@ def ask(m, q: tuple):
             vars_d = None if q[1] is None else {nm(a): float(b) for a, b in q[1]}
             s = (m.get_args if k == "q_args" else m.get_right_hand_side)(vars_d, time=float(q[2]))
             return ("pairs", [(un(a), common.exact_int(b)) for a, b in s.items()])
+        if k == "q_fluxes":
+            vars_d = None if q[1] is None else {nm(a): float(b) for a, b in q[1]}
+            s = m.get_fluxes(vars_d, time=float(q[2]))
+            return ("pairs", [(un(a), common.exact_int(b)) for a, b in s.items()])
+        if k == "q_stoich":
+            vars_d = None if q[1] is None else {nm(a): float(b) for a, b in q[1]}
+            df = m.get_stoichiometries(vars_d, time=float(q[2]))
+            rows, cols = [un(r) for r in df.index], [un(c) for c in df.columns]
+            ent = [(un(r), un(c), common.exact_int(df.loc[r, c])) for r in df.index for c in df.columns]
+            return ("table", sorted(rows), sorted(cols), sorted(ent))
         if k == "q_ic":
             return ("pairs", [(un(a), common.exact_int(b)) for a, b in m.get_initial_conditions().items()])
         if k == "q_parvals":
@@ -235,6 +273,21 @@ def content_keys(m) -> list[list[int]]:
         [un(k) for k in m.get_raw_surrogates(as_copy=False)],
         [un(k) for k in m._data],  # noqa: SLF001 -- no public accessor for data names
     ]
+
+
+def content_vals(m) -> list[list[tuple]]:
+    from mxlpy.types import InitialAssignment
+
+    def one(v):
+        return None if isinstance(v, InitialAssignment) else common.exact_int(v)
+
+    try:
+        return [
+            [(un(k), one(v.value)) for k, v in m.get_raw_parameters(as_copy=False).items()],
+            [(un(k), one(v.initial_value)) for k, v in m.get_raw_variables(as_copy=False).items()],
+        ]
+    except ValueError as e:
+        raise Discard(str(e)) from e
 
 
 def deep_content(m):
@@ -293,12 +346,21 @@ def gen_valia(rng, names) -> tuple:
     if rng.random() < 0.75 or not names:
         return ("plain", rng.randint(-2, 2))
     ar = rng.choice([1, 2])
-    return ("ia", rng.choice(fnlib.BY_ARITY[ar]), [rng.choice(names) for _ in range(ar)])
+    args = [rng.choice(names) for _ in range(ar)]
+    if rng.random() < WRONG_ARITY:
+        ar = 3 - ar
+    return ("ia", rng.choice(fnlib.BY_ARITY[ar]), args)
+
+
+WRONG_ARITY = 0.04  # share of generated functions whose arity differs from the argument list
 
 
 def gen_fn(rng, names) -> tuple[int, list[int]]:
     ar = rng.choice([0, 1, 1, 2, 2, 3]) if names else 0
-    return rng.choice(fnlib.BY_ARITY[ar]), [rng.choice(names) for _ in range(ar)]
+    args = [rng.choice(names) for _ in range(ar)]
+    if rng.random() < WRONG_ARITY:
+        ar = rng.choice([a for a in fnlib.BY_ARITY if a != ar])
+    return rng.choice(fnlib.BY_ARITY[ar]), args
 
 
 def gen_coef(rng, names, allow_named=True) -> tuple:
@@ -322,7 +384,31 @@ def gen_sur(rng, name, names, free) -> tuple:
     return (name, mf, args, outs, st)
 
 
-def gen_op(rng, known: dict[int, str]) -> tuple:
+def gen_batch(rng, choice: str, names, by, free, illegal: bool) -> tuple:
+    """a batch form with 1-3 items; an illegal one gets a bad name (taken / unknown / other kind / repeated / time)
+    at a random position, so that rejections happen at the first as well as at later items"""
+    k = rng.choice([1, 2, 2, 3, 3])
+    if choice in ("add_parameters", "add_variables"):
+        pool = list(free)
+        rng.shuffle(pool)
+        items = [(n, gen_valia(rng, names)) for n in (pool[:k] or [rng.choice(POOL)])]
+        if illegal:
+            items.insert(rng.randint(0, len(items)), (rng.choice(POOL + [0]), gen_valia(rng, names)))
+        return (choice, items)
+    xs = by("parameter" if "parameter" in choice else "variable")
+    ns = rng.sample(xs, min(k, len(xs))) if xs else []
+    if illegal or not ns:
+        ns.insert(rng.randint(0, len(ns)), rng.choice(POOL + [0, 31] + ns))
+    if choice == "remove_parameters":
+        return (choice, ns)
+    if choice == "remove_variables":
+        return (choice, ns, rng.random() < 0.7)
+    if choice == "scale_parameters":
+        return (choice, [(n, rng.choice([-1, 2, 3])) for n in ns])
+    return (choice, [(n, gen_valia(rng, names)) for n in ns])
+
+
+def gen_op(rng, known: dict[int, str], force: str | None = None) -> tuple:
     """known: our (approximate) view of name -> kind, to make most ops legal; ~25% deliberately illegal."""
     names = list(known) + [0]
     by = lambda k: [n for n, kk in known.items() if kk == k]  # noqa: E731
@@ -341,14 +427,16 @@ def gen_op(rng, known: dict[int, str]) -> tuple:
         return rng.choice(free)
 
     vars_ = by("variable")
-    r = rng.random()
+    r = rng.random() if force is None else 1.0
     if r < 0.30:  # queries
-        q = rng.choice(["q_ids", "q_args", "q_args", "q_rhs", "q_rhs", "q_ic", "q_parvals", "q_derpar"])
-        if q in ("q_args", "q_rhs"):
+        q = rng.choice(["q_ids", "q_args", "q_args", "q_rhs", "q_rhs", "q_ic", "q_parvals", "q_derpar", "q_fluxes", "q_stoich", "q_stoich"])
+        if q in ("q_args", "q_rhs", "q_fluxes", "q_stoich"):
             st = None if rng.random() < 0.5 else [(v, rng.randint(-2, 2)) for v in vars_]
             return (q, st, rng.randint(0, 2))
         return (q,)
-    choice = rng.choice(METHODS)
+    choice = rng.choice(METHODS + BATCH) if force is None else force
+    if choice in BATCH:
+        return gen_batch(rng, choice, names, by, free, illegal)
     need = {"parameter": "parameter", "variable": "variable", "derived": "derived", "reaction": "reaction", "readout": "readout",
             "surrogate": "surrogate", "data": "data"}
     kind_needed = next((v for k, v in need.items() if choice.endswith(k) and not choice.startswith("add_")), None)
@@ -369,7 +457,8 @@ def gen_op(rng, known: dict[int, str]) -> tuple:
     if choice == "make_parameter_dynamic":
         sto = None
         if rng.random() < 0.5:
-            rx = by("reaction") + EXTRA[:1]
+            # reactions, and surrogate outputs with (21) and without (22, ...) a stoichiometry entry of their own
+            rx = by("reaction") + EXTRA[:2] + [n for n in by("surrogate") if rng.random() < 0.5]
             sto = [(rng.choice(rx if not illegal else rx + [31]), rng.choice([-1, 1, 2]))] if rx else None
         return (choice, pick("parameter"), None if rng.random() < 0.6 else ("plain", rng.randint(-2, 2)), sto)
     if choice == "add_variable":
@@ -431,6 +520,38 @@ def gen_op(rng, known: dict[int, str]) -> tuple:
     raise AssertionError(choice)
 
 
+# minimised past failures (seeded changes, earlier defects): always run first
+_ALLQ = [("q_ids",), ("q_args", None, 0), ("q_rhs", None, 0), ("q_ic",), ("q_parvals",), ("q_derpar",), ("q_fluxes", None, 0), ("q_stoich", None, 0)]
+CORPUS: list[list[tuple]] = [
+    # a parameter read ONLY as a named / computed stoichiometric coefficient is rescaled after a query (seeded/C03-1)
+    [("add_parameter", 11, ("plain", 2)), ("add_variable", 12, ("plain", 1)), ("add_variable", 16, ("plain", -1)),
+     ("add_parameter", 36, ("plain", 2)), ("add_reaction", 35, 4, [11, 12], [(16, ("named", 36)), (12, ("dyn", 1, [36]))]),
+     ("q_stoich", None, 0), ("scale_parameter", 36, 2), *_ALLQ, ("update_parameters", [(36, ("plain", 5))]), *_ALLQ,
+     ("scale_parameters", [(36, 3)]), *_ALLQ],
+    # a surrogate replaced by an object with other outputs, outputs= not given (seeded/C03-2)
+    [("add_data", 13, 2), ("add_parameter", 12, ("plain", 1)),
+     ("add_surrogate", 16, (16, 2, [13], [11, 14, 22], [(14, [(13, ("dyn", 2, [13, 12]))]), (22, [(13, ("stat", -1))])]), None, None, None),
+     ("update_surrogate", 16, (16, 1, [13, 22], [22, 23], [(23, [(14, ("stat", -1))])]), None, None, None), ("q_ids",),
+     ("add_variable", 11, ("plain", 0)), ("add_variable", 23, ("plain", 0)), ("remove_surrogate", 16), ("q_ids",)],
+    # make_parameter_dynamic with a surrogate output that is not a flux as stoichiometry target (seeded/C03-3)
+    [("add_parameter", 13, ("plain", 2)), ("q_derpar",),
+     ("add_surrogate", 12, (12, 3, [13, 13], [21, 16], [(16, [(13, ("dyn", 6, [13]))])]), None, [16, 21], None),
+     ("make_parameter_dynamic", 13, ("plain", 1), [(21, 2)]), ("q_ids",), ("q_ic",)],
+    # batch edits rejected at the second / third item, after a query
+    [("add_parameters", [(11, ("plain", 2)), (17, ("ia", 0, [11]))]), ("add_variables", [(12, ("plain", 1)), (16, ("plain", 3))]),
+     ("q_ic",), ("add_parameters", [(14, ("plain", 1)), (0, ("plain", 2)), (15, ("plain", 3))]), ("remove_parameters", [11, 11]),
+     ("update_parameters", [(11, ("plain", 7)), (31, ("plain", 1))]), ("add_derived", 13, 0, [31]),
+     ("scale_parameters", [(11, 3), (17, 2)]), ("remove_derived", 13), ("add_variables", [(14, ("plain", 0)), (11, ("plain", 0))]),
+     ("update_variables", [(12, ("plain", 5)), (31, ("plain", 0))]), ("remove_variables", [12, 31], True), *_ALLQ],
+    # a function of wrong arity is accepted by every mutator; the error surfaces at the next cache construction
+    [("add_parameter", 11, ("plain", 2)), ("add_variable", 12, ("plain", 1)), ("add_parameter", 17, ("ia", 0, [11])),
+     ("add_derived", 13, 2, [11]), ("q_ic",), ("scale_parameter", 17, 2), ("add_derived", 14, 0, [31]), ("q_args", None, 0),
+     ("update_derived", 13, 0, None), ("q_args", None, 0), ("remove_derived", 14), ("add_readout", 15, 4, [12]), ("q_ic",),
+     ("remove_readout", 15), ("add_reaction", 15, 0, [11, 12], [(12, ("dyn", 2, [11]))]), ("q_rhs", None, 0),
+     ("update_reaction", 15, None, [11], None), *_ALLQ],
+]
+
+
 def is_query(op: tuple) -> bool:
     return op[0].startswith("q_")
 
@@ -463,12 +584,24 @@ def coq_op(op: tuple) -> str:
     if k in ("q_args", "q_rhs"):
         st = copt(None if op[1] is None else modelgen.coq_env(op[1]))
         return f"Ask ({'QArgs' if k == 'q_args' else 'QRhs'} {st} {cz(op[2])})"
+    if k in ("q_fluxes", "q_stoich"):
+        st = copt(None if op[1] is None else modelgen.coq_env(op[1]))
+        return f"Ask ({'QFluxes' if k == 'q_fluxes' else 'QStoich'} {st} {cz(op[2])})"
     if k == "q_ic":
         return "Ask QIc"
     if k == "q_parvals":
         return "Ask QParVals"
     if k == "q_derpar":
         return "Ask QDerParNames"
+    if k in BATCH:
+        if k == "remove_parameters":
+            return f"Bat (RemovePars {clist(map(cn, op[1]))})"
+        if k == "remove_variables":
+            return f"Bat (RemoveVars {clist(map(cn, op[1]))} {'true' if op[2] else 'false'})"
+        if k == "scale_parameters":
+            return f"Bat (ScalePars {clist(f'({cn(n)}, {cz(q)})' for n, q in op[1])})"
+        con = {"add_parameters": "AddPars", "update_parameters": "UpdatePars", "add_variables": "AddVars", "update_variables": "UpdateVars"}[k]
+        return f"Bat ({con} {clist(f'({cn(n)}, {modelgen.coq_valia(v)})' for n, v in op[1])})"
     n = cn(op[1])
     if k == "add_parameter":
         return f"Mut (AddPar {n} ({modelgen.coq_valia(op[2])}))"
@@ -527,13 +660,16 @@ def coq_obs(o: tuple) -> str:
     if o[0] == "mut":
         ids = clist(f"({cn(a)}, {cn(b)})" for a, b in o[2])
         cont = clist(clist(map(cn, ks)) for ks in o[3])
-        return f"OMut {copt(None if o[1] is None else cn(o[1]))} {ids} {cont}"
+        vals = clist(clist(f"({cn(a)}, {copt(None if b is None else cz(b))})" for a, b in vs) for vs in o[4])
+        return f"OMut {copt(None if o[1] is None else cn(o[1]))} {ids} {cont} {vals}"
     if o[0] == "ids":
         return "OIds " + clist(f"({cn(a)}, {cn(b)})" for a, b in o[1])
     if o[0] == "pairs":
         return "OPairs " + modelgen.coq_env(o[1])
     if o[0] == "names":
         return "ONames " + clist(map(cn, o[1]))
+    if o[0] == "table":
+        return f"OTable {clist(map(cn, o[1]))} {clist(map(cn, o[2]))} {clist(f'({cn(r)}, {cn(c)}, {cz(v)})' for r, c, v in o[3])}"
     return f"OErr {cn(o[1])}"
 
 
@@ -559,13 +695,52 @@ def corr_file(hists: list[str]) -> str:
 # ---------------------------------------------------------------------------------------
 
 
-def run_history(ops: list[tuple]):
+_FINDINGS: list[dict] | None = None
+
+
+def known_findings() -> list[dict]:
+    """the recorded findings of C03, read ONCE per process (the merged file is rewritten by tools/mkmanifest.py, which other
+    engineers run concurrently: a read that hits the file half-written is repeated)"""
+    global _FINDINGS
+    if _FINDINGS is None:
+        import json
+        import time
+
+        for attempt in range(5):
+            try:
+                _FINDINGS = common.load_known_findings("C03")
+                break
+            except (json.JSONDecodeError, OSError):
+                time.sleep(0.5 * (attempt + 1))
+        else:
+            _FINDINGS = common.load_known_findings("C03")
+    return _FINDINGS
+
+
+def batch_listed() -> bool:
+    """is the partial application of rejected batch edits a recorded finding (the tree before the fix)?"""
+    return any(f.get("id") == FINDING_BATCH for f in known_findings())
+
+
+def partial_as_fold(before_model, op: tuple, after) -> bool:
+    """independent replay of a rejected batch edit on a copy of the pre-state: the single-item calls one by one
+    until the first one raises; True iff that is exactly the state the batch form left behind"""
+    for it in batch_items(op):
+        try:
+            apply_mutator(before_model, it)
+        except Exception:  # noqa: BLE001
+            break
+    return deep_content(before_model) == after
+
+
+def run_history(ops: list[tuple], stats: dict | None = None):
     """-> (observations, violation or None).  Raises Discard for histories outside the modelled domain."""
     from mxlpy import Model
 
     m = Model()
     obs = []
     viol = None
+    listed = batch_listed()
     for i, op in enumerate(ops):
         if is_query(op):
             a = ask(m, op)
@@ -584,14 +759,23 @@ def run_history(ops: list[tuple]):
                     viol = (i, f"after the history, {op[0]} answers {a} but a freshly built model with the same content answers {b}")
         else:
             before = deep_content(m)
+            snapshot = copy.deepcopy(m) if op[0] in BATCH else None
             try:
                 apply_mutator(m, op)
                 rej = None
             except Exception as e:  # noqa: BLE001
                 rej = errcode(e)
-                if viol is None and deep_content(m) != before:
-                    viol = (i, f"rejected edit {op[0]} ({type(e).__name__}) changed the model: {before} -> {deep_content(m)}")
-            obs.append(("mut", rej, [(un(a), KINDCODE[b]) for a, b in m.ids.items()], content_keys(m)))
+                after = deep_content(m)
+                if after != before:
+                    # recorded finding (tree before fixes/C03-batch-edits-atomic.diff): a batch form is a plain fold and
+                    # leaves the items before the rejected one applied -- exactly that, nothing else, is excused
+                    if listed and snapshot is not None and partial_as_fold(snapshot, op, after):
+                        if stats is not None:
+                            stats["batch_partial"] = stats.get("batch_partial", 0) + 1
+                            stats.setdefault("batch_partial_example", {"history": list(ops[: i + 1]), "error": type(e).__name__})
+                    elif viol is None:
+                        viol = (i, f"rejected edit {op[0]} ({type(e).__name__}) changed the model: {before} -> {after}")
+            obs.append(("mut", rej, [(un(a), KINDCODE[b]) for a, b in m.ids.items()], content_keys(m), content_vals(m)))
             # single name space: the registry is exactly the union of the containers
             if viol is None:
                 ck = content_keys(m)
@@ -634,28 +818,34 @@ def gen_history(rng, length: int):
 
 
 def check(run: Run) -> None:
+    global _FINDINGS
+    _FINDINGS = None
     thorough = run.tier == "thorough"
     facts = gen()
     run.coverage["gen_facts"] = facts
     run.rule = (
-        "histories of 3-14 public Model operations (23 mutators incl. surrogate/readout/data ones, 6 query kinds), names from a pool of "
-        "6 (+time, +3 surrogate outputs), ~25% deliberately illegal edits (duplicate/unknown/wrong-kind names), generated adaptively "
-        "from the registry so that most edits are legal; plus all 2-step histories `populate ; query ; mutator ; query` over every "
-        "mutator; compared with the Gallina state machine after every step; non-trivial = history contains a query followed later "
-        "by a mutator and another query; distinct by content"
+        "histories of 3-14 public Model operations (23 single-item mutators incl. surrogate/readout/data ones, the 7 batch forms with "
+        "1-3 items, 8 query kinds incl. get_fluxes / get_stoichiometries), names from a pool of 6 (+time, +3 surrogate outputs), ~25% "
+        "deliberately illegal edits (duplicate/unknown/wrong-kind/repeated names; in a batch at a random position), ~4% functions whose "
+        "arity differs from their argument list, generated adaptively from the registry so that most edits are legal; plus all "
+        "histories `populate ; query ; mutator ; every query` over every single-item and batch mutator; compared with the Gallina "
+        "state machine after every step (outcome class, registry, container keys, raw parameter/variable values, answers); "
+        "non-trivial = history contains a query followed later by a mutator and another query; distinct by content"
     )
     run.check_proofs(AREA, PROPS)
     run.check_proofs("editproofs", "PropsC03b.v")  # registry / rejected-edit / name-reuse theorems
     run.assumptions += [
         "Coq 8.16.1 kernel + vm_compute; theorems closed under the global context (see trusted_base)",
         "modelled: containers as ordered association lists, surrogates as MockSurrogate records, data sets as scalars, "
-        "functions of matching arity from the polynomial library (ArityMismatchError, units, sources, aliasing of objects returned "
-        "by queries or shared between models are outside the model)",
-        "batch forms (add_parameters, ...) are folds of the single-item mutators and are not separately modelled",
-        "fact extractor (decorator presence per method, unknown container-writing methods) and correspondence harness are trusted glue",
+        "functions from the polynomial library (plain positional signatures; ArityMismatchError is recorded in the class of "
+        "TypeError; units, sources, aliasing of objects returned by queries or shared between models are outside the model)",
+        "batch forms: modelled in the two forms harness/c03_facts.py recognises statement by statement (plain fold / validate-first "
+        "of fixes/C03-batch-edits-atomic.diff); Mapping arguments as the list of pairs the dict is built from",
+        "fact extractor (decorator presence per method, unknown container-writing methods, form of the batch methods, where the arity "
+        "check sits) and correspondence harness are trusted glue",
     ]
     rng = common.rng_for(run.seed, "c03")
-    hists: list[list[tuple]] = []
+    hists: list[list[tuple]] = [list(h) for h in CORPUS]
     # systematic: populate; query; each mutator (several argument choices); query
     base = [
         ("add_parameter", 11, ("plain", 2)), ("add_variable", 12, ("plain", 1)), ("add_variable", 16, ("plain", -1)),
@@ -670,31 +860,32 @@ def check(run: Run) -> None:
     base2 = base + [("add_derived", 34, 2, [33, 11]), ("add_parameter", 36, ("plain", 2)),
                     ("add_reaction", 35, 4, [13, 12], [(16, ("named", 36)), (12, ("dyn", 1, [36]))])]
     for rnd in range(8 if thorough else 4):
-        for meth in METHODS:
+        for meth in METHODS + BATCH:
             known = {11: "parameter", 12: "variable", 16: "variable", 13: "derived", 14: "reaction", 15: "surrogate", 31: "data",
                      32: "readout", 33: "parameter"}
             if rnd % 2:
                 known |= {36: "parameter", 34: "derived", 35: "reaction"}
             for _try in range(20):
-                op = gen_op(rng, known)
+                op = gen_op(rng, known, force=meth)
                 if op[0] == meth:
                     break
             else:
                 continue
-            q1 = rng.choice([("q_args", None, 0), ("q_rhs", None, 1), ("q_ic",), ("q_derpar",)])
-            hists.append((base2 if rnd % 2 else base) + [q1, op, ("q_ids",), ("q_args", None, 0), ("q_rhs", None, 0), ("q_ic",), ("q_parvals",), ("q_derpar",)])
+            q1 = rng.choice([("q_args", None, 0), ("q_rhs", None, 1), ("q_ic",), ("q_derpar",), ("q_stoich", None, 0), ("q_fluxes", None, 0)])
+            hists.append((base2 if rnd % 2 else base) + [q1, op, ("q_ids",), ("q_args", None, 0), ("q_rhs", None, 0), ("q_ic",), ("q_parvals",),
+                                                        ("q_derpar",), ("q_fluxes", None, 0), ("q_stoich", None, 0)])
             n_sys += 1
     n_rand = 4000 if thorough else 500
     for _ in range(n_rand):
         hists.append(gen_history(rng, rng.randint(3, 14)))
 
     dist = {"histories": 0, "systematic": n_sys, "discarded": 0, "ops": {}, "rejected_edits": 0, "accepted_edits": 0,
-            "query_answers": 0, "query_errors": 0, "stale_pattern": 0}
+            "query_answers": 0, "query_errors": 0, "stale_pattern": 0, "batch_partial": 0, "corpus": len(CORPUS)}
     coq_h, kept = [], []
     n_viol = 0
     for h in hists:
         try:
-            obs, viol = run_history(h)
+            obs, viol = run_history(h, dist)
         except Discard:
             dist["discarded"] += 1
             continue
@@ -728,6 +919,14 @@ def check(run: Run) -> None:
     run.coverage["input_distribution"] = dist
     files = {f"c03_{k:04d}": corr_file(chunk) for k, chunk in enumerate(common.chunks(coq_h, 100))}
     res = common.coq_eval_many(AREA, files, timeout_s=900)
+    # engineers work concurrently in this tree: when another run recompiled coq/core underneath us the shards fail with
+    # "makes inconsistent assumptions over library ..." -- that says nothing about /repo: rebuild the area and evaluate
+    # the affected shards once more (a shard that fails for any other reason, or again, is reported as before)
+    stale = {n: files[n] for n, (ok, out) in res.items() if not ok and "inconsistent assumptions" in out}
+    if stale:
+        run.note(f"{len(stale)} correspondence shards hit a concurrent rebuild of a dependency; rebuilding {AREA} and retrying them once")
+        common.coq_build(AREA)
+        res.update(common.coq_eval_many(AREA, stale, timeout_s=900))
     mism = 0
     for k, name in enumerate(sorted(files)):
         ok, out = res[name]
@@ -741,6 +940,18 @@ def check(run: Run) -> None:
                 run.broken_correspondence.append(f"state machine/implementation disagree on history {kept[k * 100 + j]}")
     run.coverage["traces_validated_against_impl"] = len(coq_h) - mism
     run.coverage["correspondence_mismatches"] = mism
+    # recorded findings: replay every witness; still failing => KNOWN-FINDING (exit code unaffected)
+    for f in known_findings():
+        st: dict = {}
+        try:
+            _o, v = run_history([modelgen_tup(op) for op in f["witness"]["history"]], st)
+        except Exception as e:  # noqa: BLE001
+            run.broken_correspondence.append(f"witness of finding {f['id']} no longer runs: {type(e).__name__}: {e}")
+            continue
+        if st.get("batch_partial"):
+            run.known(f["id"], f["what_fails"] + f" [seen in {dist['batch_partial']} generated batch edits of this run]")
+        else:
+            run.note(f"finding {f['id']}: the witness no longer fails (violation on it: {v}) -- move it to 'fixed' (tools/c03_switch.py repaired)")
     # a proof obligation or the correspondence broke but the oracle saw nothing wrong on this run's
     # histories: search harder for a concrete failing history (implementation + fresh-rebuild oracle
     # only; the Coq model is not consulted): `populate ; query ; mutator ; every query` for many
@@ -762,19 +973,20 @@ def _targeted_search(rng, base: list[tuple], rounds: int):
                         ("add_reaction", 35, 4, [13, 12], [(16, ("named", 36)), (12, ("dyn", 1, [36]))])]
     known0 = {11: "parameter", 12: "variable", 16: "variable", 13: "derived", 14: "reaction", 15: "surrogate", 31: "data",
               32: "readout", 33: "parameter", 36: "parameter", 34: "derived", 35: "reaction"}
-    tail = [("q_ids",), ("q_args", None, 0), ("q_rhs", None, 0), ("q_rhs", None, 1), ("q_ic",), ("q_parvals",), ("q_derpar",)]
+    tail = [("q_ids",), ("q_args", None, 0), ("q_rhs", None, 0), ("q_rhs", None, 1), ("q_ic",), ("q_parvals",), ("q_derpar",),
+            ("q_fluxes", None, 0), ("q_stoich", None, 0)]
     for pop in (populated, base):
         for _ in range(rounds):
-            for meth in METHODS:
+            for meth in METHODS + BATCH:
                 op = None
                 for _try in range(30):
-                    cand = gen_op(rng, dict(known0))
+                    cand = gen_op(rng, dict(known0), force=meth)
                     if cand[0] == meth:
                         op = cand
                         break
                 if op is None:
                     continue
-                for q1 in (("q_args", None, 0), ("q_ic",)):
+                for q1 in (("q_args", None, 0), ("q_ic",), ("q_stoich", None, 0)):
                     h = pop + [q1, op] + tail
                     tried += 1
                     try:
